@@ -18,6 +18,7 @@ import (
 	"sync/atomic"
 
 	"rivaas.dev/app"
+	"rivaas.dev/logging"
 	"rivaas.dev/router"
 	"rivaas.dev/router/route"
 	"rivaas.dev/router/version"
@@ -375,6 +376,7 @@ type World struct {
 type BuildOpts struct {
 	Check    bool
 	Compiled bool                 // router.WithRouteCompilation(true): static routes are served from the compiled table
+	Obs      bool                 // app world: observability (logging to io.Discard) on — c.Response is the size-tracking observability writer
 	Defaults bool                 // app world: keep the default middleware (recovery)
 	Pre      []router.HandlerFunc // router world: installed with Use before the script runs (C10: recovery)
 }
@@ -405,6 +407,9 @@ func Build(script []Op, bo BuildOpts) (w *World, err error) {
 		aopts := []app.Option{app.WithServiceName("verif"), app.WithServiceVersion("0.0.1"), app.WithRouter(ropts...)}
 		if !bo.Defaults {
 			aopts = append(aopts, app.WithoutDefaultMiddleware())
+		}
+		if bo.Obs {
+			aopts = append(aopts, app.WithObservability(app.WithLogging(logging.WithOutput(io.Discard))))
 		}
 		a, e := app.New(aopts...)
 		if e != nil {
